@@ -3,12 +3,16 @@ package main
 // Standard-library oracles: float parsing/formatting/arithmetic, slice growth, encoding/json.
 
 import (
+	"cmp"
 	"encoding/json"
 	"errors"
 	"fmt"
 	"io"
 	"math"
+	"regexp"
+	"slices"
 	"strconv"
+	"strings"
 
 	lang "github.com/alligator/jqawk/src"
 )
@@ -164,4 +168,85 @@ func doJSONEnc(c *cursor) string {
 		return "!"
 	}
 	return hx(string(b))
+}
+
+// REGEX <id> <pattern> <subject> -> m1 | m0 | bad   (regexp.Compile + MatchString)
+func doRegex(c *cursor) string {
+	pat := c.hex()
+	subj := c.hex()
+	c.end()
+	re, err := regexp.Compile(pat)
+	if err != nil {
+		return "bad"
+	}
+	if re.MatchString(subj) {
+		return "m1"
+	}
+	return "m0"
+}
+
+// STRFN <id> <fn> <s> [<sep>] -> hex | comma-separated hex pieces
+// fn: upper lower (strings.ToUpper/ToLower), split (strings.Split(s, sep)),
+// runes (for i, r := range s: comma separated "<offset>:<hex of string(r)>")
+func doStrFn(c *cursor) string {
+	fn := c.next()
+	s := c.hex()
+	switch fn {
+	case "upper":
+		c.end()
+		return hx(strings.ToUpper(s))
+	case "lower":
+		c.end()
+		return hx(strings.ToLower(s))
+	case "split":
+		sep := c.hex()
+		c.end()
+		parts := strings.Split(s, sep)
+		out := make([]string, len(parts))
+		for i, p := range parts {
+			out[i] = hx(p)
+		}
+		return join(out)
+	case "runes":
+		c.end()
+		var out []string
+		for i, r := range s {
+			out = append(out, fmt.Sprintf("%d:%s", i, hx(string(r))))
+		}
+		return join(out)
+	}
+	bad()
+	return ""
+}
+
+// CAPFROM <id> <n> -> capacity after appending one cell to make([]*Cell, n, n)
+// (the growth step from an exactly-sized slice, e.g. an array literal or decoded array)
+func doCapFrom(c *cursor) string {
+	n := c.count()
+	c.end()
+	s := make([]*lang.Cell, n, n)
+	s = append(s, &lang.Cell{})
+	return fmt.Sprintf("%d", cap(s))
+}
+
+// SORTF <id> <bits16hex>,... -> the same numbers sorted with slices.SortStableFunc + cmp.Compare
+func doSortF(c *cursor) string {
+	f := c.next()
+	c.end()
+	var xs []float64
+	if f != "-" {
+		for _, h := range strings.Split(f, ",") {
+			u, err := strconv.ParseUint(h, 16, 64)
+			if err != nil || len(h) != 16 {
+				bad()
+			}
+			xs = append(xs, math.Float64frombits(u))
+		}
+	}
+	slices.SortStableFunc(xs, func(a, b float64) int { return cmp.Compare(a, b) })
+	out := make([]string, len(xs))
+	for i, x := range xs {
+		out[i] = bits(x)
+	}
+	return join(out)
 }
